@@ -56,6 +56,8 @@ pub struct GoRec {
     pub search_exit_polls: Option<u64>,
     pub search_exited: bool,
     pub spawned: u32,
+    /// every stdout line written by this go's threads, in order
+    pub outs: Vec<String>,
 }
 
 #[derive(Default)]
@@ -413,6 +415,7 @@ pub fn analyse_session(case: &Case, out: &Outcome) -> Analysis {
                     }
                 } else if let Some(&gi) = thread_go.get(&e.th) {
                     let g = &mut gos[gi];
+                    g.outs.push(line.clone());
                     if let Some(d) = line.strip_prefix("info depth ") {
                         if let Ok(d) = d.trim().parse::<u32>() {
                             g.infos.push((e.seq, d, *polls));
@@ -933,22 +936,13 @@ pub fn analyse_autoplay(_case: &Case, out: &Outcome) -> Analysis {
 }
 
 /// C19: the `info depth/score/nodes/pv` lines and the bestmove of the last accepted `go` of a session
-pub fn last_search_transcript(case: &Case, out: &Outcome, an: &Analysis) -> Option<Vec<String>> {
+pub fn last_search_transcript(case: &Case, _out: &Outcome, an: &Analysis) -> Option<Vec<String>> {
     let id: u32 = case.tags.iter().find_map(|t| t.strip_prefix("c19go="))?.parse().ok()?;
     let g = an.gos.iter().find(|g| g.accepted && g.cmd == id)?;
-    let th = g.search?;
-    let mut v = vec![];
-    for e in &out.events {
-        if e.th == th {
-            if let EvK::Out { line, .. } = &e.k {
-                v.push(line.clone());
-            }
-        }
-    }
     if g.n_best == 0 {
         return None;
     }
-    Some(v)
+    Some(g.outs.clone())
 }
 
 pub fn compare_c19(a: &mut Analysis, case: &Case, base: Option<Vec<String>>, got: Option<Vec<String>>) {
@@ -961,5 +955,33 @@ pub fn compare_c19(a: &mut Analysis, case: &Case, base: Option<Vec<String>>, got
         }
         (None, _) => a.inconclusive = true,
         (_, None) => a.inconclusive = true,
+    }
+}
+
+/// Is this run a non-trivial case for `prop` by the rule stated in the evidence file?
+pub fn nontrivial_for(prop: &str, case: &Case, out: &Outcome, an: &Analysis) -> bool {
+    let answered_with_info = an.gos.iter().any(|g| g.accepted && g.n_best > 0 && !g.infos.is_empty() && g.root.is_some());
+    match prop {
+        "C06" => answered_with_info,
+        "C18" => an.gos.iter().any(|g| g.root.is_some() && g.pvs.iter().any(|p| !p.is_empty())),
+        "C07" => {
+            an.stops_observed > 0
+                || an.gos.iter().any(|g| g.accepted && g.n_best > 0 && g.search.and_then(|t| out.threads.get(t)).map_or(false, |t| t.saw_false_at.is_some()))
+                || (case.mode == Mode::Autoplay && an.accepted_gos > 1)
+        }
+        "C08" => an.gos.iter().any(|g| {
+            g.accepted && match g.depth {
+                Some(n) => g.infos.iter().any(|(_, d, _)| *d >= n) && g.n_best > 0,
+                None => g.infos.last().map_or(false, |(_, d, _)| *d >= 8),
+            }
+        }),
+        "C13" => an.gos.iter().any(|g| g.accepted && g.sleep_ns.is_some() && g.root.is_some() && (g.movetime.is_some() || g.clocks.is_some())),
+        "C19" => case.family != "baseline-again" && out.polls > 0 && !an.inconclusive,
+        "C15" => match case.mode {
+            Mode::Autoplay => an.accepted_gos >= 64,
+            Mode::Direct => an.answered_gos > 0,
+            Mode::Session => an.gos.iter().any(|g| g.accepted && g.n_best > 0) && case.steps.iter().any(|s| matches!(&s.k, crate::case::GK::NewGame { pre, .. } if pre.len() >= 64)),
+        },
+        _ => an.accepted_gos > 0 && out.polls > 0,
     }
 }
